@@ -298,12 +298,27 @@ def accepts (c : Cfg) (connected : Bool) (tr : List Obs) : Bool :=
 
 /-! ### Vocabulary of the property statements (functions of the observed trace) -/
 
-/-- The value set most recently (`set` of any kind, or `initialize_value`). -/
-def lastSetOf (tr : List Obs) : Option Nat :=
-  tr.foldl (fun acc o => match o with
-    | .set p _ _ => some p
-    | .init p _ => p
-    | _ => acc) none
+/-- What the trace says about updates and the connection (pure function of the inputs). -/
+structure Track where
+  /-- payload set most recently (`set` of any kind, or `initialize_value`) -/
+  lastSet : Option Nat := none
+  /-- time of the last update that had to be taken: a `set` that was not (skip_unchanged ∧ equal to the
+  value set last); `initialize_value` clears it (the value counts as sent) -/
+  tSet : Option Nat := none
+  conn : Bool
+  /-- connected without interruption since `tSet` -/
+  connOk : Bool := false
+  deriving DecidableEq, Repr
+
+def track1 (k : Track) : Obs → Track
+  | .set p skip t =>
+    if skip && k.lastSet == some p then k else { k with lastSet := some p, tSet := some t, connOk := k.conn }
+  | .init p _ => { k with lastSet := p, tSet := none, connOk := false }
+  | .conn up _ =>
+    if k.conn == up then k else if up then { k with conn := true } else { k with conn := false, connOk := false }
+  | _ => k
+
+def track (connected : Bool) (tr : List Obs) : Track := tr.foldl track1 { conn := connected }
 
 def outsOf (tr : List Obs) : List Out :=
   tr.filterMap fun o => match o with | .out x => some x | _ => none
